@@ -94,6 +94,7 @@ func (b *Batch) Put(key []byte, value []byte) error {
 		b.cachedDataSize += newSize
 	} else {
 		// 如果缓存命中则直接修改缓存
+		logRecord.Type = datafile.LogRecordNormal
 		logRecord.Key = key
 		logRecord.Value = value
 		b.cachedDataSize += newSize - oldSize
